@@ -91,8 +91,13 @@ type c01issCase struct {
 	HoldMs map[string]int `json:"hold_ms,omitempty"`
 	// number of separate storages (default 1). Instances on different storages share nothing but the
 	// process: in particular the package-level record of held locks, which is keyed by lock name only.
-	Stores int    `json:"stores,omitempty"`
-	Class  string `json:"class"`
+	Stores int `json:"stores,omitempty"`
+	// the Locker grants an uncontended lock to a cancelled context (FileStorage does; the in-memory double
+	// on request): a cancel fault at the Lock gate then ends the context while Lock is in progress and the
+	// lock is granted anyway. In the model that is an acquisition followed by a cancellation that takes
+	// effect at the request's next operation, so the label is recorded there.
+	LockIgnoresCtx bool   `json:"lock_ignores_ctx,omitempty"`
+	Class          string `json:"class"`
 }
 
 type c01issStep struct {
@@ -182,6 +187,7 @@ type c01issRT struct {
 	acme     *certmagic.ACMEIssuer
 	waited   int
 	heldBack bool
+	pendCanc bool // a cancellation at the Lock gate whose label is recorded at the next operation
 	usedF    map[string]bool
 }
 
@@ -893,6 +899,7 @@ func (e *c01issEnv) stepThread(rt *c01issRT) error {
 		}
 	}
 	cancBefore := rt.canc
+	grantAnyway := e.cs.LockIgnoresCtx && kind == "Lock" && f == c01fCancel && !lockHeld && !cancBefore
 	if f == c01fCancel {
 		rt.canc = true
 	}
@@ -901,6 +908,9 @@ func (e *c01issEnv) stepThread(rt *c01issRT) error {
 	a.reply <- f
 	expected := 1
 	rt.state = c01stRunning
+	if grantAnyway {
+		expected = 1 // the LockAcquired announcement
+	}
 	if kind == "Lock" && lockHeld && f == c01fNone && !cancBefore {
 		rt.state, rt.waitLock, expected = c01stBlocked, a.op.Key, 0
 	}
@@ -970,7 +980,18 @@ func (e *c01issEnv) stepThread(rt *c01issRT) error {
 	if hung {
 		out = 0 // the Lock call itself was accepted; what failed is the acquisition
 	}
-	e.obs.Steps = append(e.obs.Steps, c01issStep{Tid: rt.id, Fault: f, Op: enc, Out: out, Desc: desc})
+	fRec := f
+	if grantAnyway {
+		// the context ended while Lock was in progress and the lock was granted all the same
+		fRec, rt.pendCanc = c01fNone, true
+		if lo.Err == "" {
+			out = 0
+		}
+		desc += " [context cancelled at this gate; granted anyway]"
+	} else if rt.pendCanc && kind != "LockAcquired" && fRec == c01fNone {
+		fRec, rt.pendCanc = c01fCancel, false
+	}
+	e.obs.Steps = append(e.obs.Steps, c01issStep{Tid: rt.id, Fault: fRec, Op: enc, Out: out, Desc: desc})
 	e.obs.Sched = append(e.obs.Sched, rt.id)
 	if hung {
 		e.obs.Deadlock = true
@@ -1094,6 +1115,7 @@ func c01RunIssCase(cs c01issCase) (*c01issObs, error) {
 			if sharedLog != nil {
 				fb.log = sharedLog // one log, one gate for all storages
 			}
+			fb.lockIgnoresCtx = cs.LockIgnoresCtx
 			be = fb
 		} else {
 			mb := doubles.NewMemBackend()
@@ -1101,7 +1123,8 @@ func c01RunIssCase(cs c01issCase) (*c01issObs, error) {
 			if sharedLog != nil {
 				mb.Log = sharedLog
 			}
-			be = c01MemBackend{mb}
+			lic := cs.LockIgnoresCtx
+			be = c01MemBackend{mb, &lic}
 		}
 		sharedLog = be.GetLog()
 		defer be.Close()
